@@ -366,6 +366,9 @@ func checkResultFresh(r *Report, rName *Rule, ruleID string, fp *ssa.Function) {
 				nbad++
 				rName.Bad(fnName(fp)+":result-buffer", posOf(ret), "the returned bytes belong to %s, not to a buffer allocated for this call: a later or concurrent conversion can overwrite them", x)
 			default:
+				if contentKeyedMapEntry(theProg, fp, x.V) {
+					continue /* remembered under everything it was made from */
+				}
 				nbad++
 				what := x.String()
 				if ex, isEx := x.V.(*ssa.Extract); isEx {
@@ -382,6 +385,100 @@ func checkResultFresh(r *Report, rName *Rule, ruleID string, fp *ssa.Function) {
 	if 0 == nbad {
 		rName.OK(fnName(fp)+":result-buffer", fp.Pos(), "results are rendered into buffers allocated in this call")
 	}
+}
+
+// contentKeyedMapEntry: v is an entry of a map kept between calls, looked up
+// under a key which holds everything this call read from its source (the
+// whole text, not a name, a size or a time) — and every entry ever stored in
+// that map was stored in this function, under the key it was looked up with,
+// and is something rendered afresh in the storing call.  Then the entry is
+// what rendering now would give.
+func contentKeyedMapEntry(p *Prog, fp *ssa.Function, v ssa.Value) bool {
+	if ex, isEx := v.(*ssa.Extract); isEx {
+		v = ex.Tuple
+	}
+	lk, ok := v.(*ssa.Lookup)
+	if !ok {
+		return false
+	}
+	if _, isMap := lk.X.Type().Underlying().(*types.Map); !isMap {
+		return false
+	}
+	mapLd, ok := lk.X.(*ssa.UnOp)
+	if !ok || token.MUL != mapLd.Op {
+		return false
+	}
+	/* The key: holds what io.ReadAll gave for this call's reader. */
+	whole := false
+	for _, x := range valueRoots(lk.Index, func(n string) bool { return false }) {
+		switch x.Kind {
+		case "param", "const":
+		case "call":
+			switch x.Callee {
+			case "io.ReadAll", "io/ioutil.ReadAll", "os.ReadFile":
+				whole = true
+			case "path/filepath.Base", "path/filepath.Ext", "strings.TrimSuffix":
+			default:
+				return false
+			}
+		default:
+			return false
+		}
+	}
+	if !whole {
+		return false
+	}
+	/* Every store into that map. */
+	n := 0
+	okAll := true
+	for _, f := range p.Funcs() {
+		eachInstr(f, func(i ssa.Instruction) {
+			mu, isMU := i.(*ssa.MapUpdate)
+			if !isMU {
+				return
+			}
+			ml, isLd := mu.Map.(*ssa.UnOp)
+			if !isLd || token.MUL != ml.Op || !sameAddr(ml.X, mapLd.X) {
+				if types.Identical(mu.Map.Type(), lk.X.Type()) && !isLd {
+					okAll = false /* the same kind of map, reached some other way */
+				}
+				return
+			}
+			n++
+			sameKey := resolveCell(mu.Key) == resolveCell(lk.Index)
+			if a, isA := mu.Key.(*ssa.UnOp); isA && token.MUL == a.Op {
+				if b, isB := lk.Index.(*ssa.UnOp); isB && token.MUL == b.Op {
+					if al, isAl := a.X.(*ssa.Alloc); isAl && a.X == b.X {
+						/* Two reads of one local, filled in before either. */
+						sameKey = true
+						for _, ref := range *al.Referrers() {
+							if fa, isFA := ref.(*ssa.FieldAddr); isFA {
+								for _, r2 := range *fa.Referrers() {
+									if st, isSt := r2.(*ssa.Store); isSt && !instrDominates(st, b) {
+										sameKey = false
+									}
+								}
+							}
+						}
+					}
+				}
+			}
+			if f != fp || !sameKey {
+				okAll = false
+				return
+			}
+			for _, x := range valueRoots(mu.Value, func(n string) bool {
+				return "(*bytes.Buffer).Bytes" == n || "bytes.Clone" == n || "slices.Clone" == n || "fmt.Appendf" == n || "fmt.Sprintf" == n
+			}) {
+				switch x.Kind {
+				case "alloc", "const", "param":
+				default:
+					okAll = false
+				}
+			}
+		})
+	}
+	return okAll && n > 0
 }
 
 // perlUnescape decodes a y/// replacement list with \NNN octal escapes.
